@@ -631,7 +631,7 @@ impl Python {
                 RustEnumVariant::Tuple { shared, .. } => shared.id.renamed.clone(),
                 RustEnumVariant::AnonymousStruct { shared, .. } => shared.id.renamed.clone(),
             })
-            .map(|name| (name.to_case(Case::Snake).to_uppercase(), name))
+            .map(|name| (python_enum_member_name(&name), name))
             .collect::<Vec<(String, String)>>();
         let enum_type_class_name = format!("{}Types", shared.id.renamed);
         self.add_import("enum".to_string(), "Enum".to_string());
@@ -643,7 +643,8 @@ impl Python {
             all_enum_variants_name
                 .iter()
                 .map(|(type_key_name, type_string)| format!(
-                    "    {type_key_name} = \"{type_string}\""
+                    "    {type_key_name} = \"{}\"",
+                    type_string.replace('\\', "\\\\").replace('"', "\\\"")
                 ))
                 .collect::<Vec<String>>()
                 .join("\n")
@@ -738,6 +739,21 @@ fn get_python_keywords() -> &'static HashSet<String> {
             .map(|v| v.to_string()),
         )
     })
+}
+
+/// Name of the member of the `...Types` enum for a variant with the given wire name: upper snake case,
+/// made a valid identifier (a wire name may start with a digit or contain any character).
+fn python_enum_member_name(name: &str) -> String {
+    let mut member: String = name
+        .to_case(Case::Snake)
+        .to_uppercase()
+        .chars()
+        .map(|c| if c.is_alphanumeric() || c == '_' { c } else { '_' })
+        .collect();
+    if member.chars().next().map_or(true, |c| c.is_ascii_digit()) {
+        member.insert(0, '_');
+    }
+    member
 }
 
 fn python_property_aware_rename(name: &str) -> String {
